@@ -178,7 +178,7 @@ class Sel:
     # -- the value stored under opts["batch_ids"]
     def ids_value(self, n, defined):
         txt = ast.unparse(n)
-        if txt == "tuple(batch_ids)":
+        if txt in ("tuple(batch_ids)", "tuple((int(i) for i in batch_ids))"):
             return "(IdsList (arg_ids batch_ids))"
         if txt == "crop.missing_results()":
             return "(IdsList missing)"
